@@ -21,19 +21,19 @@ LEVEL = "exploration"
 SHARDS = {"quick": 8, "thorough": 16}
 BUDGET = {"quick": 25.0, "thorough": 420.0}
 REQUIRE = {
-    "histories": 8000,
-    "model:emit": 30000,
+    "histories": 6000,
+    "model:emit": 15000,
     "model:emit_nested": 2000,
-    "model:args_checked": 50000,
+    "model:args_checked": 30000,
     "model:args_checked_weak": 5000,
     "model:args_checked_user_arg": 500,
-    "model:required_called_once": 50000,
-    "model:order_checked": 12000,
-    "model:emits_with_removal_during": 5000,
+    "model:required_called_once": 25000,
+    "model:order_checked": 8000,
+    "model:emits_with_removal_during": 4000,
     "model:emits_with_connect_during": 2000,
-    "model:emits_with_weak_death_during": 800,
+    "model:emits_with_weak_death_during": 600,
     "model:optional_calls": 100,
-    "model:result_checked": 25000,
+    "model:result_checked": 12000,
     "model:result_true_expected": 5000,
     "model:disc_args_hit": 2000,
     "model:disc_key_hit": 2000,
@@ -45,9 +45,9 @@ REQUIRE = {
     "widget_triggers": 1000,
     "constructor_callback_connections": 200,
     "widget_trigger_calls": 1000,
-    "api:module": 5000,
-    "api:fresh": 5000,
-    "reach:signals.Signals.emit": 30000,
+    "api:module": 3000,
+    "api:fresh": 3000,
+    "reach:signals.Signals.emit": 15000,
     "reach:signals.Signals.disconnect_by_key": 5000,
     "reach:signals.Signals.connect.<locals>.weakref_callback": 1000,
     "reach:widget.widget.Widget._emit": 1000,
